@@ -202,7 +202,7 @@ def attribution(ev):
             continue
         # --- re-judge with the exact interval oracle
         judged = 'exact-judged'
-        tol = R.ratio_tol(ex['L'], p['rep'])
+        tol = R.ratio_tol(ex['L'], p['rep'], s['aspect'])
         pos = [(c, sh) for c, sh in zip(cells, shares) if sh > tol]
         tot = sum(sh for _, sh in pos) or 1.0
         rows = [(c[0], c[1], sh / tot) for c, sh in pos]
